@@ -68,7 +68,7 @@ def _try_hs(t):
     return f
 
 
-def make_endpoint(net, transport, bs=16, maxrec=16, wlog=True, timeout=None, store=None, serial_cap=32):
+def make_endpoint(net, transport, bs=16, maxrec=16, wlog=True, timeout=None, store=None, serial_cap=32, own=False):
     from ioflo.aio.tcp import clienting, serving
     from ioflo.aio.wiring import WireLog
     ep = Endpoint()
@@ -88,6 +88,10 @@ def make_endpoint(net, transport, bs=16, maxrec=16, wlog=True, timeout=None, sto
         lst.bind(("0.0.0.0", PORT))
         lst.listen(5)
         kw = dict(ha=("127.0.0.1", PORT), bufsize=bs, wlog=ep.wlog, store=store, timeout=timeout)
+        if own:      # the caller's own (still empty) transmit queue and receive buffer, handed over through the constructor
+            from collections import deque
+            ep.own_txes, ep.own_rxbs = deque(), bytearray()
+            kw.update(txes=ep.own_txes, rxbs=ep.own_rxbs)
         if transport == "client":
             cl = clienting.Client(**kw)
         else:
